@@ -287,7 +287,10 @@ def _evaluate(wl, cfg, dec, ctx, after_decoy=False):
     # winner model (after a decoy only when every single-combination reference was computed earlier, in a
     # clean process state; otherwise the references themselves would be computed under the decoy's influence)
     have_refs = all(("single", m_, w_) in ctx.extra for m_, w_ in wl["combos"] if f"{m_}/_{w_}_weight" not in fail)
-    if not may_timeout and (not after_decoy or have_refs):
+    if may_timeout and is_fe:
+        pass  # a time limit that can expire may end the call with FittingError - and with nothing else:
+    # a result that is returned although a limit could expire must still be the true winner
+    elif not after_decoy or have_refs:
         kind, best, tie = winner_model(wl, ctx, fail)
         if tie:
             out.probes["exact_tie_in_sort_key"] = 1
@@ -318,10 +321,10 @@ def _evaluate(wl, cfg, dec, ctx, after_decoy=False):
                     d = diff(single.summary, out.summary)
                     if d:
                         add("winner-model", f"returned combination {m}/{w} but with different numbers than that combination run alone: {d}")
-    elif T > 0 and out.status == "exc" and not is_fe and not out.exc_class == "SimDeadlock":
+    if T > 0 and out.status == "exc" and not is_fe and not out.exc_class == "SimDeadlock":
         add("timeout", f"timeout path ended with {out.exc_class}: {out.exc_msg}")
-    # recovery
-    if wl.get("recovery") and not fail and not may_timeout and out.status == "ok":
+    # recovery (also when a time limit could expire: whatever is *returned* must have recovered)
+    if wl.get("recovery") and not fail and out.status == "ok":
         res = out.result
         out.probes["recovery_checked"] = 1
         import pyimpspec
